@@ -161,7 +161,8 @@ class Act(object):
             #  compute .inode
             self.inode = (self.ioinits or odict()).get('inode', ioinits.get('inode', self.inode))
             if self.inode is not None and not isinstance(self.inode, (str, bytes)):
-                raise ValueError("Nonstring inode '{0}'".format(self.inode))
+                raise excepting.ResolveError("ResolveError: Nonstring inode", self.inode, self,
+                                             self.human, self.count)
             if self.inode and not self.inode.endswith("."):  # ensure node not share path
                 self.inode = "{0}.".format(self.inode)
 
@@ -449,13 +450,23 @@ class Act(object):
                                 " to resolve relative pathname.", ipath, self,
                                 self.human, self.count)
 
+            try:
+                if ipath.endswith('.'): # Node not Share
+                    made = self.frame.store.createNode(ipath.rstrip('.'))
+                else: # Share
+                    made = self.frame.store.create(ipath)
+            except ValueError as ex:  # empty name, share where node expected or vice versa
+                raise excepting.ResolveError("ResolveError: Invalid resolved pathname."
+                                             " {0}".format(ex), ipath, self,
+                                             self.human, self.count)
+
             if ipath.endswith('.'): # Node not Share
-                ipath = self.frame.store.createNode(ipath.rstrip('.'))
+                ipath = made
                 if warn:
                     console.profuse( "     Warning: Non-existent node '{0}' "
                                         "... creating anyway\n".format(ipath))
             else: # Share
-                ipath = self.frame.store.create(ipath)
+                ipath = made
                 if ival is not None:
                     if iown:
                         ipath.update(ival)
@@ -776,7 +787,8 @@ class Actor(object):
                     else:
                         ival = odict(value=ival)
             else:
-                raise ValueError("Bad ioinit for key '{0}' with value '{1}'".format(key, val))
+                raise excepting.ResolveError("ResolveError: Bad ioinit value", key, val,
+                                             self._act.human, self._act.count)
 
             # inode is prepended in act.resolvePath
 
